@@ -45,7 +45,7 @@ RULE = ("Part A: BFS to closure over (tag store, connected?, pylogix type cache)
 BOUNDS = {
     "quick": "A: DINT on a[3]+s (2 values/element, 3rd boundary value as read-back probe): closure = 54 states; DINT on "
              "big[300]+s (two whole-array patterns, connection size 504 -> small Forward Open, 4 write fragments): 17 states; "
-             "REAL, BOOL on a[2]+s: 30 states each; call sequences from a fresh system: all of length <= 2 over the full "
+             "REAL, BOOL on a[2]+s: 30 states each; INT on a[2]+s with a two-hop pylogix Route (two port segments in the connection path); call sequences from a fresh system: all of length <= 2 over the full "
              "a[2]+s alphabet (DINT), all of length <= 3 over a 12-call alphabet (DINT), all of length <= 2 over that alphabet "
              "for the other 8 types.  B: INT on config tiny (a[2], s, b[1]@0x401/1/1; closure = 16 stores) x 180 requests x 7 "
              "transports; the other 12 element types from the initial store x 2 transports (Unconnected Send, large connection)",
@@ -85,7 +85,7 @@ def big_len(typ):
 def a_config(typ, variant):
     if variant == "arr":
         return (("a", typ, 3, None), ("S", typ, None, None))
-    if variant == "arr2":
+    if variant in ("arr2", "arr2r"):                  # arr2r: the client reaches the controller over a two-hop route
         return (("a", typ, 2, None), ("S", typ, None, None))
     if variant == "big":
         return (("Big", typ, big_len(typ), None), ("S", typ, None, None))
@@ -122,7 +122,7 @@ def a_ops(cfgkey):
     third = TS.VALS[typ][2] if len(TS.VALS[typ]) > 2 else None
     v0, v1 = vals
     ops = []
-    if variant in ("arr", "arr2"):
+    if variant in ("arr", "arr2", "arr2r"):
         n = 3 if variant == "arr" else 2
         idx = lambda i: "a" if i == 0 else "a[%d]" % i
         ops.append((("R", "s", 1), True))
@@ -336,6 +336,8 @@ class ARig:
         self.sim.rnd.counter = itertools.count(0x1000)
         self.env = PE.Env(self.sim)
         self.comm = self.env.plc(connection_size=self.connsize)
+        if self.cfgkey[1].endswith("r"):
+            self.comm.Route = [(1, 3), (1, 0)]          # backplane slot 3 (a bridge), then its backplane slot 0: two port segments
         self.handles = {}
         self.conn_ids = {}
         self.to_ids = {}
@@ -1170,13 +1172,13 @@ def expand_b(acc, item, tier, seed):
 def plan(ctx):
     """-> (A roots, sequence shards, B roots)"""
     if ctx.quick:
-        a_keys = [("DINT", "arr", None), ("DINT", "big", 504)] + [(t, "arr2", None) for t in ("REAL", "BOOL")]
+        a_keys = [("DINT", "arr", None), ("DINT", "big", 504)] + [(t, "arr2", None) for t in ("REAL", "BOOL")] + [("INT", "arr2r", None)]
         seqs = [(("DINT", "arr2", None), "full", 2), (("DINT", "arr", None), "seq12", 3)]
         seqs += [((t, "arr2", None), "seq12", 2) for t in A_TYPES if t not in ("DINT", "REAL", "BOOL")]
         b_keys = [("INT", "tiny", 2, False, "full")] + [(t, "tiny", 2, False, "root") for t in TS.TYPES if t != "INT"]
     else:
         a_keys = [(t, "arr", None) for t in A_TYPES] + [(t, "big", 504) for t in A_TYPES]
-        a_keys += [(t, "big", None) for t in ("DINT", "SINT", "LREAL")] + [("INT", "arr", 504)]
+        a_keys += [(t, "big", None) for t in ("DINT", "SINT", "LREAL")] + [("INT", "arr", 504), ("INT", "arr2r", None), ("LREAL", "arr2r", 504)]
         seqs = [(("DINT", "arr", None), "seq22", 3)] + [((t, "arr", None), "seq12", 3) for t in ("REAL", "BOOL", "LINT", "USINT")]
         seqs += [(("DINT", "arr2", None), "full", 2)]
         b_keys = [(t, "tiny", 2, t == "INT", "full" if t in ("INT", "REAL", "SSTRING", "STRING") else "conn3") for t in TS.TYPES]
